@@ -243,7 +243,8 @@ class CovarianceInterpolator(AbstractInterpolator):
                 relationships,
             )
         }
-        return model.instance_for_arguments(arguments)
+        instance = model.instance_for_arguments(arguments)
+        return instance.replacing_for_path(tuple(value.path.keys), value.value)
 
     def _max_likelihood_samples_list(self) -> SamplesPDF:
         """
